@@ -254,6 +254,12 @@ def await_gather(I, st, v, node):
             raise Unsupported("asyncio.gather of %s (line %s)" % (x.ty, getattr(node, "lineno", "?")))
     raise_keys = []
     for fi, argmap, guard, bound, _src in coros:
+        if fi is None:
+            # user coroutines: their effects are the rely; they raise what their opaque contract says
+            for k in argmap["$opaque"].term[1].raises:
+                if k not in raise_keys:
+                    raise_keys.append(k)
+            continue
         c = I.db.get(fi.qualname)
         if c is None:
             raise Unsupported("asyncio.gather of coroutine %s without a contract" % fi.qualname)
@@ -274,6 +280,8 @@ def await_gather(I, st, v, node):
     # all preconditions are demanded at the gather call; then the children run (interleaved)
     all_locs = []
     for fi, argmap, guard, bound, _src in coros:
+        if fi is None:
+            continue
         c = I.db.get(fi.qualname)
         all_locs.append(calls.modifies_locations(I, st, c, dict(argmap), c.modifies))
     for locs in all_locs:
@@ -365,7 +373,7 @@ def stages_in_order(I, st, fname, event, lists):
         ok = True
         for b, j in zip(batches, S):
             fi, argmap, guard, bound, src = b
-            if fi.name != fname or src is None:
+            if fi is None or fi.name != fname or src is None:
                 ok = False
                 break
             conj.append(src.term == lists[j].term)
@@ -385,7 +393,7 @@ def gathered_count(I, st, fname, src):
     """how many gathered batches so far called coroutine function `fname` once per element of the container `src`"""
     n = 0
     for fi, argmap, guard, bound, bsrc in st.ghost.get("$batches", []):
-        if fi.name == fname and bsrc is not None and bsrc.term is not None and z3.is_expr(bsrc.term) and bsrc.term.eq(src.term):
+        if fi is not None and fi.name == fname and bsrc is not None and bsrc.term is not None and z3.is_expr(bsrc.term) and bsrc.term.eq(src.term):
             n += 1
     return n
 
